@@ -93,7 +93,8 @@ def define():
                 else:
                     for n in (1, 3):
                         clone(a, "clone", b, elem, L=3, ln=n, tier="thorough")
-    clone("Nothing", "clone", "heap", "B1", L=3, ln=3, tier="thorough")
+    # (no B1 instance: a 1-byte element stores its identity in a nibble, which cannot carry the "n-th clone = id + 8n"
+    #  scheme; the thorough measurement showed the harness's own model failing there, not the library)
     for tr in ("csend", "csync", "call"):
         for b in ("heap", "stack"):
             for a in ("Nothing", "PushClone", "MutateOrig"):
